@@ -14,10 +14,19 @@ Destinations for handshakes / punch-to-all / data roaming are taken from `Remote
   resolved / static                       — filtered by `shouldAdd` in `unlockedCollect`: `candidates_usable`
   punch notification                      — `punch_targets_usable`            (after the `fix:` commit, F12)
   blocked                                 — `candidates_usable` (never listed)
-  learned (handshake / roaming)           — hypothesis `hl` of `candidates_usable`: the packet path drops
-      every non-relayed packet whose source is inside my networks before any handshake / roaming processing
-      (outside.go readOutsidePackets) and checks the allow list before `SetRemote` (handleHostRoaming,
-      handshake manager); those are tied by structural facts, not modelled — hence `_partial`.
+  learned (handshake / roaming)           — `learned_pass_gate`: the packet path (`learnGate`: readOutsidePackets
+      drops non-relayed packets whose source is inside my networks; HandleIncoming / beginHandshake /
+      continueHandshake / handleHostRoaming check the allow list before `SetRemote`) hands only usable
+      addresses to `SetRemote`; tied by `gate` ops on real nodes and by call-order facts.
+  all of it over histories                — `cache_invariant`, `candidates_usable`, `per_source_cap`: induction
+      over arbitrary sequences of events (`Ev`: messages, static / DNS / calculated-remote updates, learn /
+      roam events, blocks, unblocks, handshake refreshes, tunnel closes, reads).
+
+Standing hypotheses (named, not proved here): (H1) the underlay source address of a packet is unmapped
+(`EvWF`; the udp listeners call `Unmap` on every received address); (H2) the remote allow list and my
+networks are fixed over a history — a reload of `lighthouse.remote_allow_list` does not re-filter entries
+recorded earlier; (H3) the operator's explicit overrides (`Control.SetRemoteForTunnel`, ssh `change-remote`)
+are outside the quantifier.
 
 Reading of "each information source … at most ten" (F20): a source is one cache owner × address family
 (plus its relay list): `reported_pass_filter_and_cap`. The operator's own `static_host_map` entry is not
@@ -26,11 +35,12 @@ this on 12 addresses; the statement's "information source" is read as a *remote*
 
 The allow list is taken as fixed over a history (a reload does not re-filter recorded entries).
 -/
-import Nebula.Lemmas.Lighthouse
+import Nebula.Lemmas.LighthouseInv
 import Nebula.Props.C35
 
 namespace Nebula.Props.C36
 open Nebula.Net Nebula.RemoteList Nebula.Lighthouse Nebula.Lemmas.Lighthouse Nebula.Lemmas.RemoteList
+open Nebula.Lemmas.LighthouseInv
 open Nebula.Spec.Lighthouse (usable usableGlobal)
 open Nebula.Spec.RemoteList (candidates sources)
 
@@ -78,25 +88,39 @@ theorem reported_pass_filter_and_cap (c : Cfg) (s : LH) (id : Nat) (owner vpn : 
   exact ⟨rl', oc, h1, h2, h3, h4, by simpa [maxRemotes, Gen.rl_MaxRemotes] using h5,
     by simpa [maxRemotes, Gen.rl_MaxRemotes] using h6, by simpa [maxRemotes, Gen.rl_MaxRemotes] using h7⟩
 
-/-- PARTIAL (see header): for a remote list of this node, after any history of RemoteList operations, every
-address `CopyAddrs`/`ForEach` hands to the handshake manager / punchy is not blocked and is usable (outside my
-networks and allowed by the global list) — provided the learned (`hl`) and reported (`hr`) cache entries are:
-`hr` is what `reported_pass_filter_and_cap` establishes for every report, `hl` is the packet-path gate.
-Full statement would derive `hl` from a model of outside.go / handshake_manager.go. -/
-theorem candidates_usable_partial (c : Cfg) (vpn : List Addr) (ops : List Op) (pref : List Prefix)
-    (hcache : let r := ops.foldl (apply (some (shouldAddAll c))) { vpnAddrs := vpn }
-      ∀ e ∈ r.cache, ∀ x ∈ e.2.sources, usableGlobal c x.addr = true) :
-    let r := ops.foldl (apply (some (shouldAddAll c))) { vpnAddrs := vpn }
-    ∀ x ∈ (rebuild r (some (shouldAddAll c)) pref).addrs, x ∉ r.badRemotes ∧ usableGlobal c x.addr = true := by
-  intro r x hx
-  have hfresh := (history_fresh (some (shouldAddAll c)) ops _ (init_fresh _ vpn)).1
-  have hspec := rebuild_spec (some (shouldAddAll c)) r hfresh pref
-  have hc := (hspec.2.1 x).mp hx
-  simp only [candidates, sources, List.mem_filter, List.mem_append, List.mem_flatMap] at hc
-  refine ⟨by simpa using hc.2, ?_⟩
-  rcases hc.1 with ⟨e, he, hxe⟩ | ⟨_, hsa⟩
-  · exact hcache e he x hxe
-  · exact shouldAddAll_usableGlobal c _ _ hsa
+/-- The learned-address gate: whatever remote the packet path hands to `SetRemote` (responder handshake,
+initiator handshake, roaming) came directly (not through a relay), lies outside my overlay networks and is
+allowed by the remote allow list for every overlay address of the peer. -/
+theorem learned_pass_gate (c : Cfg) (k : LearnKind) (vpns : List Addr) (cur : Option AP) (via : Via)
+    (sup : Bool) (r : AP) (h : learnGate c k vpns cur via sup = some r) :
+    r = via.udp ∧ via.relayed = false ∧ inMyNets c r.addr = false ∧ c.ral.allowAll vpns r.addr = true :=
+  learnGate_usable h
+
+/-- MAIN INVARIANT: after any history of events, starting from the empty cache, in every remote list and
+under every owner: every learned and reported address is usable (outside my networks, allowed by the remote
+allow list; IPv6 slots read through `Unmap`), each owner holds at most `MaxRemotes` reported addresses per
+family and relays, and the cached deduplicated list is dirty or free of unusable / blocked addresses. -/
+theorem cache_invariant (c : Cfg) (evs : List Ev) (hwf : ∀ e ∈ evs, EvWF e) :
+    Good c (evs.foldl (applyEv c) {}) :=
+  good_history evs hwf _ (good_empty c)
+
+/-- FULL: after any history, whatever `CopyAddrs` / `ForEach` / `Len` hand to the handshake manager, punchy
+or the roaming code for any remote list (`read` at any time, any preferred ranges) is usable and not
+blocked — for every source: lighthouse answers, host updates, static / resolved / calculated entries,
+learned addresses. -/
+theorem candidates_usable (c : Cfg) (evs : List Ev) (hwf : ∀ e ∈ evs, EvWF e) (id : Nat) (rl : RL)
+    (pref : List Prefix) (hg : (evs.foldl (applyEv c) {}).getList id = some rl) :
+    ∀ x ∈ (rebuild rl (some (shouldAddAll c)) pref).addrs, usableGlobal c x.addr = true ∧ x ∉ rl.badRemotes :=
+  (rebuild_good (good_getList (cache_invariant c evs hwf) hg) pref).2
+
+/-- "Each information source contributes at most ten addresses per peer": every cache owner of every list,
+per family, and its relays (MaxRemotes = 10 regenerated from hostmap.go). -/
+theorem per_source_cap (c : Cfg) (evs : List Ev) (hwf : ∀ e ∈ evs, EvWF e) (id : Nat) (rl : RL)
+    (hg : (evs.foldl (applyEv c) {}).getList id = some rl) :
+    ∀ e ∈ rl.cache, e.2.v4r.length ≤ 10 ∧ e.2.v6r.length ≤ 10 ∧ e.2.relay.length ≤ 10 := by
+  intro e he
+  obtain ⟨_, _, h3, h4, h5⟩ := (good_getList (cache_invariant c evs hwf) hg).1 e he
+  simpa [maxRemotes, Gen.rl_MaxRemotes] using And.intro h3 (And.intro h4 h5)
 
 /-- an address allowed for the peer and outside my networks is in particular globally usable. -/
 theorem usable_implies_global (c : Cfg) (v u : Addr) (h : usable c v u = true) : usableGlobal c u = true :=
@@ -137,6 +161,22 @@ example :
     let d : Details := { oldVpn := 0x0a800014, v4 := [⟨⟨.v4, 0x0a800063⟩, 65535⟩, ⟨⟨.v4, 0x01010101⟩, 4242⟩] }
     (handleRequest c {} [⟨.v4, 0x0a800002⟩] { typ := typHostPunchNotification, details := some d }).2.punches =
       [⟨some ⟨⟨.v4, 0x01010101⟩, 4242⟩, ⟨.v4, 0x0a800014⟩⟩, ⟨none, ⟨.v4, 0x0a800014⟩⟩] := by
+  decide
+
+
+-- non-vacuity of the gate: a packet from inside my networks, or from a denied range, never reaches SetRemote;
+-- an ordinary source does, for each path
+example :
+    let c : Cfg := { amLighthouse := false, myNets := [⟨⟨.v4, 0x0a800001⟩, 24⟩], lighthouses := [],
+                     ral := { allowList := some [(⟨⟨.v4, 0⟩, 0⟩, true), (⟨⟨.v4, 0xc0a80000⟩, 16⟩, false), (⟨⟨.v6, 0⟩, 0⟩, true)],
+                              inside := none }, initV := 2, staticList := [] }
+    let peer : List Addr := [⟨.v4, 0x0a80000a⟩]
+    learnGate c .roam peer none ⟨⟨⟨.v4, 0x0a800063⟩, 4242⟩, false⟩ false = none ∧
+    learnGate c .stage1 peer none ⟨⟨⟨.v4, 0xc0a80005⟩, 4242⟩, false⟩ false = none ∧
+    learnGate c .stage2 peer none ⟨⟨⟨.v4, 0x01010101⟩, 4242⟩, true⟩ false = none ∧
+    learnGate c .roam peer (some ⟨⟨.v4, 0x01010101⟩, 4242⟩) ⟨⟨⟨.v4, 0x01010101⟩, 4242⟩, false⟩ false = none ∧
+    learnGate c .stage1 peer none ⟨⟨⟨.v4, 0x01010101⟩, 4242⟩, false⟩ false = some ⟨⟨.v4, 0x01010101⟩, 4242⟩ ∧
+    learnGate c .roam peer (some ⟨⟨.v4, 0x01010101⟩, 4242⟩) ⟨⟨⟨.v4, 0x08080808⟩, 1⟩, false⟩ false = some ⟨⟨.v4, 0x08080808⟩, 1⟩ := by
   decide
 
 end Nebula.Props.C36
